@@ -24,6 +24,10 @@ from ..interp import Opaque, NONE, Str
 from ..model import AnalysisError, Program
 from ..report import Check, VERIF
 
+# loops the engines summarise on purpose (retry / pause / enumeration loops are judged by the
+# loop rules of this check, not by unrolling)
+EXPECTED_GAPS = {('loop', '*')}
+
 NOT_REQUESTS = ('connect', 'disconnect', '__init__')
 
 
